@@ -31,8 +31,8 @@ type varBehaviour struct {
 }
 
 const variantsCfg = `CONSTANTS
-  Types = {"userSend", "userReceive", "contractReceive", "momentum"}
-  Fields = {"changesHash", "basePlasma", "totalPlasma", "publicKey", "signature", "descendantBody", "descendantPlasma"}
+  Types = {"userSend", "userReceive", "contractCall", "contractReceive", "momentum"}
+  Fields = {"changesHash", "basePlasma", "totalPlasma", "publicKey", "signature", "signatureTrailing", "dirtyPadding", "trailingBytes", "descendantBody", "descendantPlasma"}
   Policy <- %s
   WithHist = %s
 INIT Init
@@ -60,6 +60,20 @@ func alterBlock(b *nom.AccountBlock, field string) *nom.AccountBlock {
 		} else {
 			v.Signature = []byte{1, 2, 3}
 		}
+	case "signatureTrailing":
+		v.Signature = append(append([]byte{}, v.Signature...), 0x00, 0x01)
+	case "dirtyPadding", "trailingBytes":
+		// the call data in another ABI encoding of the same arguments; the owner hashes and signs it (a different block: what must
+		// not happen is that it is accepted and stored in a non-canonical encoding)
+		d := append([]byte{}, v.Data...)
+		if field == "dirtyPadding" && len(d) >= 36 {
+			d[4] = 0xff // the 12 bytes above a 20-byte address are padding
+		} else {
+			d = append(d, 0xaa, 0xbb)
+		}
+		v.Data = d
+		v.Hash = v.ComputeHash()
+		v.Signature = g.User1.Sign(v.Hash.Bytes())
 	case "descendantBody":
 		if len(v.DescendantBlocks) > 0 {
 			v.DescendantBlocks[0].Amount = new(big.Int).Add(v.DescendantBlocks[0].Amount, big.NewInt(999999))
@@ -194,6 +208,9 @@ func variantReplay(run *core.Run, b *varBehaviour, outcomes map[string]int) erro
 	switch cellT {
 	case "userSend":
 		original, err = A.Submit(&nom.AccountBlock{BlockType: nom.BlockTypeUserSend, Address: g.User1.Address, ToAddress: g.User2.Address, TokenStandard: types.ZnnTokenStandard, Amount: big.NewInt(500)}, g.User1)
+	case "contractCall":
+		original, err = A.Submit(&nom.AccountBlock{BlockType: nom.BlockTypeUserSend, Address: g.User1.Address, ToAddress: types.PlasmaContract, TokenStandard: types.QsrTokenStandard, Amount: big.NewInt(10 * 100000000),
+			Data: definition.ABIPlasma.PackMethodPanic(definition.FuseMethodName, g.User2.Address)}, g.User1)
 	case "userReceive":
 		var s *nom.AccountBlock
 		s, err = A.Submit(&nom.AccountBlock{BlockType: nom.BlockTypeUserSend, Address: g.User1.Address, ToAddress: g.User2.Address, TokenStandard: types.ZnnTokenStandard, Amount: big.NewInt(500)}, g.User1)
@@ -244,6 +261,17 @@ func variantReplay(run *core.Run, b *varBehaviour, outcomes map[string]int) erro
 		if original == nil {
 			return "n/a"
 		}
+		if cellT == "contractCall" && (cellF == "dirtyPadding" || cellF == "trailingBytes") {
+			st := B.Chain.GetFrontierAccountStore(original.Address)
+			blk, err := st.ByHeight(original.Height)
+			switch {
+			case err != nil || blk == nil:
+				return "none"
+			case bytes.Equal(blk.Data, original.Data):
+				return "canonical"
+			}
+			return "variant"
+		}
 		got := storedBytes(B, original)
 		switch {
 		case got == nil:
@@ -281,6 +309,8 @@ func variantReplay(run *core.Run, b *varBehaviour, outcomes map[string]int) erro
 				v, _ := node.Wire(momOriginal)
 				if cellF == "publicKey" {
 					v.Momentum.PublicKey = g.User5.Public
+				} else if cellF == "signatureTrailing" {
+					v.Momentum.Signature = append(append([]byte{}, v.Momentum.Signature...), 0x00, 0x01)
 				} else {
 					v.Momentum.Signature = append([]byte{}, v.Momentum.Signature...)
 					v.Momentum.Signature[3] ^= 0x20
